@@ -14,11 +14,16 @@ struct QX : Q {
 struct SX : Sub {
     using Sub::ready; using Sub::subscribe; using Sub::check_next;
 };
+// the registration-by-copy overload through a tolerant helper: a refactoring that removes it must leave the other units decidable (seeded change C16-7)
+template<typename Q, typename S> static std::size_t c16_subscribe_copy(Q *q, std::size_t h, const S *s) {
+    if constexpr (requires { q->subscribe(h, s); }) return q->subscribe(h, s); else return (std::size_t)-1; }
+template<typename Q, typename S> static std::size_t c16_subscribe_lk_copy(Q *q, std::size_t h, const S *s) {
+    if constexpr (requires { q->subscribe_lk(h, s); }) return q->subscribe_lk(h, s); else return (std::size_t)-1; }
 extern "C" {
 // ---- queue: the functions executed under the lock
 std::size_t drv_subscribe_lk_pos(QX *q, const Sub *s, std::size_t pos) { return q->subscribe_lk(s, pos); }
 std::size_t drv_subscribe_lk_recent(QX *q, const Sub *s) { return q->subscribe_lk(s); }
-std::size_t drv_subscribe_lk_copy(QX *q, std::size_t h, const Sub *s) { return q->subscribe_lk(h, s); }
+std::size_t drv_subscribe_lk_copy(QX *q, std::size_t h, const Sub *s) { return c16_subscribe_lk_copy(q, h, s); }
 void drv_leave_lk(QX *q, std::size_t h) { q->leave_lk(h); }
 bool drv_advance_lk(QX *q, std::size_t h, subscribtion_type t) { return q->advance_lk(h, t); }
 bool drv_advance_suspend_lk(QX *q, std::size_t h, awaiter *a) { return q->advance_suspend_lk(h, a); }
@@ -28,7 +33,7 @@ void drv_kick_lk(QX *q, const Sub *s, std::unique_lock<std::mutex> *lk) { q->kic
 // ---- queue: locked wrappers
 std::size_t drv_q_subscribe_pos(Q *q, const Sub *s, std::size_t pos) { return q->subscribe(s, pos); }
 std::size_t drv_q_subscribe_recent(Q *q, const Sub *s) { return q->subscribe(s); }
-std::size_t drv_q_subscribe_copy(Q *q, std::size_t h, const Sub *s) { return q->subscribe(h, s); }
+std::size_t drv_q_subscribe_copy(Q *q, std::size_t h, const Sub *s) { return c16_subscribe_copy(q, h, s); }
 bool drv_q_advance(Q *q, std::size_t h, subscribtion_type t) { return q->advance(h, t); }
 bool drv_q_advance_suspend(Q *q, std::size_t h, awaiter *a) { return q->advance_suspend(h, a); }
 void drv_q_leave(Q *q, std::size_t h) { q->leave(h); }
